@@ -757,7 +757,11 @@ class LibMixin:
             for cid, tv in st.cells.items():
                 if cid not in o.cells:
                     o.cells[cid] = tv
-            return self.ev1(a[0], o, frame)
+            r = self.ev1(a[0], o, frame)
+            if isinstance(r, Cont):
+                # a container VALUE of the old state (not a location that would be re-read in the new one)
+                r = Cont(TermLoc(self.c_term(r, o)), r.t, frozen=True)
+            return r
         if name in ('forall', 'exists'):
             decl = a[0].value
             lam = a[1]
@@ -816,12 +820,20 @@ class LibMixin:
             return Sc(self.ctx.shapes.isinstance_term(vals[0].term, a[1].id if isinstance(a[1], ast.Name) else vals[1].name), BOOL)
         if name == 'exact_class':
             return Sc(self.ctx.shapes.exact_class_term(vals[0].term, vals[1].name), BOOL)
+        if name == 'uf':
+            # uf("name", x, ...): application of an uninterpreted ghost function with Int result
+            fname = a[0].value
+            terms = [self.term(v, st) for v in vals[1:]]
+            f = z3.Function('ghost_' + fname, *[t.sort() for t in terms], z3.IntSort())
+            return Sc(f(*terms), INT)
         if name == 'as_':
             return RefV(vals[0].term, ref(a[1].id), False)
         if name == 'hash':
             return list(self.bi_hash(vals, {}, st, frame, node))[0][1]
         if name == 'fresh_obj':
             return Sc(z3.Not(z3.Select(self.ctx.alive0, vals[0].term)), BOOL)
+        if name == 'allocated':
+            return Sc(z3.Select(st.alloc_arr(), vals[0].term), BOOL)
         if name == 'card':
             return Sc(self.c_len(vals[0], st), INT)
         if name == 'some':
